@@ -5,7 +5,10 @@ CHECKS = {}
 
 CHECKS["C13"] = dict(
     explanation="Symbolic execution of backend.ParseGetObjectRange (real SSA incl. strings.Split/strconv.ParseInt) against a reference "
-                "classifier written from the property statement; object size is an arbitrary int64, header bytes symbolic.",
+                "classifier written from the property statement; object size is an arbitrary int64, header bytes symbolic. H13b: the real GetObject "
+                "route handler (controllers.GetActions, response helpers) over the real posix.GetObject on the file-system model: objects of 0..3 (4) symbolic "
+                "bytes x Range absent / a-b / a- / -n (numbers 0..5) / multi-range / other unit / garbage; status, Content-Range, announced length and the "
+                "streamed body bytes against the same reference.",
     harnesses=[
         dict(name="H13a-structured", pkgs=["./backend"], entry="backend.VfRangeStructured", native=True,
              reach=["partial", "whole", "unsat"]),
@@ -13,10 +16,13 @@ CHECKS["C13"] = dict(
         dict(name="H13a-freespec", pkgs=["./backend"], entry="backend.VfRangeFreeSpec", native=True,
              reach=["partial", "whole", "unsat", "grey"]),
         dict(name="H13a-witness", pkgs=["./backend"], entry="backend.VfRangeWitness", witness=True),
+        dict(name="H13b-e2e", pkgs=["./s3api"], entry="s3api.VfGetRangeE2E", redirects="spec/redirects_ctrl.json,spec/redirects_fs.json", reach=["responded"],
+             key_trace=['"Range:']),
     ],
     assumptions=["SMT solvers z3 4.8.12 (primary) and cvc5 1.0 --solve-bv-as-int=sum (fallback) are sound",
                  "GoSE interprets go/ssa faithfully (validated by native replay of counterexamples and differential self-tests)"],
-    outside=["numbers longer than the stated digit bound", "headers longer than the stated byte bound", "HTTP framing of the response body"],
+    outside=["numbers longer than the stated digit bound", "headers longer than the stated byte bound", "HTTP framing of the response body (fasthttp)",
+             "H13b: objects longer than 3 (4) bytes, range numbers above 5, versioned reads, azure / s3proxy backends"],
 )
 
 CHECKS["C14"] = dict(
@@ -82,15 +88,27 @@ CHECKS["C07"] = dict(
 
 CHECKS["C16"] = dict(
     explanation="utils.IsValidBucketName (real SSA incl. Go's regexp engine interpreted symbolically) against the S3 naming rules written as one formula: "
-                "all names up to the length bound, names around the 63-character limit, and dotted-quad shaped names.",
+                "all names up to the length bound, names around the 63-character limit, and dotted-quad shaped names. On the file-system model, real posix "
+                "code: ListBuckets paging/ownership filter over every population of <=3 buckets vs a reference; CreateBucket on an existing name fails and "
+                "leaves a byte-identical subtree (data + xattrs); every bucket setting reads back as last written through a fresh Posix value and is gone "
+                "after delete; DeleteBucket || PutObject / CompleteMultipartUpload with one request nested at every file-system step of the other.",
     harnesses=[
         dict(name="H16a-short", pkgs=["./s3api/utils"], entry="s3api/utils.VfBucketNameShort", pkgname="utils", native=True, reach=["accepted", "refused"]),
         dict(name="H16a-long", pkgs=["./s3api/utils"], entry="s3api/utils.VfBucketNameLong", pkgname="utils", native=True, reach=["checked"]),
         dict(name="H16a-ip", pkgs=["./s3api/utils"], entry="s3api/utils.VfBucketNameIP", pkgname="utils", native=True, reach=["checked"]),
         dict(name="H16a-witness", pkgs=["./s3api/utils"], entry="s3api/utils.VfBucketNameWitness", witness=True),
+        dict(name="H16b-listbuckets", pkgs=["./backend/posix"], entry="backend/posix.VfListBuckets", redirects="spec/redirects_fs.json", reach=["listing-complete"]),
+        dict(name="H16b-create-existing", pkgs=["./backend/posix"], entry="backend/posix.VfCreateExisting", redirects="spec/redirects_fs.json", reach=["create-returned"]),
+        dict(name="H16c-settings", pkgs=["./backend/posix"], entry="backend/posix.VfBucketSettings", redirects="spec/redirects_fs.json", reach=["read-back"]),
+        dict(name="H16d-delete-race", pkgs=["./backend/posix"], entry="backend/posix.VfDeleteBucketRace", redirects="spec/redirects_fs.json", reach=["both-returned"],
+             key_inputs=["nesting"], key_trace=['"the other request runs before']),
     ],
-    assumptions=["SMT solvers sound", "GoSE faithful (regexp package executed from its real SSA)"],
-    outside=["reserved prefixes/suffixes (xn--, sthree-, -s3alias, --ol-s3)", "bucket settings round trips, ListBuckets, DeleteBucket races (not built yet)"],
+    assumptions=["SMT solvers sound", "GoSE faithful (regexp package executed from its real SSA)",
+                 "H16b-d: file-system model (zzvfos): atomic namespace operations, xattrs as per-inode map; encoding/json as round-trip model"],
+    outside=["reserved prefixes/suffixes (xn--, sthree-, -s3alias, --ol-s3)", "more than three buckets; bucket names other than aa/ab/b in the listing harness",
+             "settings programs longer than 2 (quick) / 3 (thorough) operations; policy/ACL documents are opaque byte strings of up to 2 bytes",
+             "DeleteBucket races: one request runs entirely at one file-system step of the other (or after it); schedules splitting both, three requests, "
+             "CreateBucket as the racing request, sidecar metadata store", "HTTP-level plumbing of the settings in the controllers"],
 )
 
 _CTRL = dict(pkgs=["./s3api"], redirects="spec/redirects_ctrl.json", pkgname="s3api", native=True, native_partial=True, key_trace=['"route='])
@@ -129,15 +147,21 @@ CHECKS["C10"] = dict(
     explanation="(a) auth.CheckObjectAccess (real code) over a backend model holding a symbolic lock configuration, retention (mode, symbolic date), "
                 "legal hold and bypass policy, with a symbolic clock: a protected version is always refused. (b) route typestate: every backend call "
                 "that destroys or replaces a version (PutObject, CopyObject, CompleteMultipartUpload, DeleteObject, DeleteObjects) is preceded by a "
-                "granted lock check covering exactly the keys it touches.",
+                "granted lock check covering exactly the keys it touches. (c) real posix lock storage on the file-system model: from an object under legal "
+                "hold / COMPLIANCE / GOVERNANCE with an arbitrary future date, no PutObjectRetention (any mode/date/bypass flag), PutObjectLockConfiguration (any "
+                "accepted document) or PutBucketVersioning(Suspended) weakens the protection: CheckObjectAccess over the real backend still refuses, the "
+                "retention is not removed, shortened or downgraded.",
     harnesses=[
         dict(name="H10a-decision", pkgs=["./s3api"], entry="s3api.VfLockDecision", redirects="spec/redirects_ctrl.json", reach=["refused", "let-through"]),
         dict(name="H10b-routes", pkgs=["./s3api"], entry="s3api.VfLockRoutes", redirects="spec/redirects_ctrl_stub.json", reach=["returned", "destructive-call"],
              key_trace=['"route='], panic_ok=True),
+        dict(name="H10c-lockstate", pkgs=["./backend/posix"], entry="backend/posix.VfLockState", redirects="spec/redirects_fs.json", reach=["settings-changed"],
+             key_trace=['"setting change:']),
     ],
-    assumptions=["time.Now = arbitrary non-decreasing whole seconds; AddDate with 365-day years", "lock state comes from the backend model (posix storage of lock attributes: not built yet)",
+    assumptions=["time.Now = arbitrary non-decreasing whole seconds; AddDate with 365-day years", "H10a/b: lock state comes from the backend model; H10c: real posix storage of lock attributes on the file-system model",
                  "decision functions replaced by recording stand-ins in the route typestate"],
-    outside=["retention overwrite rules and lock-configuration monotonicity in the posix backend (H10c: not built)", "bucket default retention is explored but not asserted", "bucket deletion / versioning changes"],
+    outside=["setting-change programs longer than 1 (quick) / 2 (thorough) calls", "bucket default retention is explored but not asserted", "bucket deletion",
+             "retention of non-current versions (version-id addressed calls)"],
 )
 
 CHECKS["C19"] = dict(
